@@ -5,6 +5,9 @@ Applies the patch to a scratch worktree of /repo (never to /repo itself), runs t
 import os, subprocess, sys, tempfile, shutil
 args = sys.argv[1:]
 tier, seed = 'quick', '0'
+nolean = '--no-lean' in args
+if nolean:
+    args.remove('--no-lean')
 if '--tier' in args:
     i = args.index('--tier'); tier = args[i + 1]; del args[i:i + 2]
 if '--seed' in args:
@@ -18,7 +21,7 @@ try:
     subprocess.check_call(['git', '-C', wt, 'apply', patch])
     env = dict(os.environ, PB_BSS_REPO=wt, VERIF_SEED=seed, VERIF_EVIDENCE_DIR=os.path.join(V, 'out', 'mutant_evidence'))
     for p in props:
-        r = subprocess.run([os.path.join(V, 'check'), p, '--tier', tier], cwd=V, env=env, capture_output=True, text=True)
+        r = subprocess.run([os.path.join(V, 'check'), p, '--tier', tier] + (['--no-lean'] if nolean else []), cwd=V, env=env, capture_output=True, text=True)
         lines = [l for l in r.stdout.splitlines() if l.startswith(('VIOLATION', 'KNOWN', 'check ', '  '))]
         print(f'--- {p}: exit {r.returncode}')
         print('\n'.join(lines[-8:]))
